@@ -558,6 +558,18 @@ func ruleHops(r *core.Reporter) {
 			r.Violated("postprocessItem/outlinks-guard", p.InstrPos(eoCall), "outlinks are extracted without the hop test")
 		}
 	}
+	if outItem != nil && soFn != nil {
+		// the hop gate covers the *creation* of outlink items, whatever extractor the URLs came from (the asset
+		// extractors of JSON/XML pages return outlinks too)
+		if _, g := ir.GuardedBy(pi, ir.Entry(pi), outItem, true, func(a ir.Atom) bool {
+			c := ir.BoolCallAtom(a, pkgPost+".shouldExtractOutlinks")
+			return c != nil && ir.SameValue(c.Call.Args[0], pi.Params[0])
+		}); g {
+			r.Held("postprocessItem/outlink-items-guard", 1, "outlink items are only created when shouldExtractOutlinks(item)")
+		} else {
+			r.Violated("postprocessItem/outlink-items-guard", p.InstrPos(outItem), "outlink items can be created although shouldExtractOutlinks(item) is false: URLs returned by the asset extractors (JSON, XML …) are queued from pages already at --max-hops, each carrying hops+1 — an endless paginated API is crawled without bound")
+		}
+	}
 	if outItem != nil {
 		// skip rule: NewItem(outlink) not reachable on the path Enabled && !Match && hops >= MaxHops
 		hp := "$" + pi.Params[0].Name() + ".GetURL().GetHops()"
